@@ -65,6 +65,17 @@ func c15Domain(id string) string {
 	return ""
 }
 
+// c15UserOK: "@localpart:domain" with a non-empty domain; the localpart may be empty (the
+// specification's historical user IDs allow it; which IDs are valid in detail is C17's subject and the
+// generators keep away from the grey area).
+func c15UserOK(id string) bool {
+	if !strings.HasPrefix(id, "@") {
+		return false
+	}
+	i := strings.IndexByte(id, ':')
+	return i >= 1 && i < len(id)-1
+}
+
 func c15In(l []string, s string) bool {
 	for _, x := range l {
 		if x == s {
